@@ -17,6 +17,7 @@ type Msg struct {
 	MT      int
 	Payload []byte
 	Partial bool // only part of the message is (ever) on the wire: it must not be reported complete
+	Opaque  bool // the bytes of a partial message are not known to the oracle (compressed or cut inside a frame)
 	Note    string
 	Rec     *OpRec
 }
@@ -154,17 +155,22 @@ func checkDelivery(run *Run, prop, who string, want []Msg, obs []Obs, term strin
 		case "join":
 			var exp []byte
 			kk := k
+			partialTail := false
 			for ; kk < len(want); kk++ {
+				if want[kk].Partial {
+					partialTail = true // bytes of an unfinished message may follow; they are not known here
+					break
+				}
 				exp = append(exp, want[kk].Payload...)
 				exp = append(exp, term...)
 			}
-			if !bytes.HasPrefix(exp, o.Data) {
+			if !bytes.HasPrefix(exp, o.Data) && !(partialTail && bytes.HasPrefix(o.Data, exp)) {
 				d := firstDiff(exp, o.Data)
 				run.fail(prop, "join-mismatch", "join", "%s: JoinMessages stream differs from the concatenated messages at byte %d (got %d bytes, want prefix of %d)", who, d, len(o.Data), len(exp))
 			}
 			// count messages wholly contained
 			n := 0
-			for kk = k; kk < len(want); kk++ {
+			for kk = k; kk < len(want) && !want[kk].Partial; kk++ {
 				n += len(want[kk].Payload) + len(term)
 				if n <= len(o.Data) {
 					k++
@@ -188,6 +194,9 @@ func checkDelivery(run *Run, prop, who string, want []Msg, obs []Obs, term strin
 			exp = bytes.TrimRight(w.Payload, "\n")
 		}
 		switch {
+		case w.Partial && o.Complete && o.JSON:
+			// a JSON document is complete as soon as its value is; ReadJSON does not need the end of the message
+			k++
 		case w.Partial && o.Complete:
 			run.fail(prop, "partial-reported-complete", obsKind(o), "%s: message %d never finished on the wire (%d bytes of it were sent) but the read API reported it complete with %d bytes", who, k, len(exp), len(o.Data))
 			k++
@@ -203,14 +212,14 @@ func checkDelivery(run *Run, prop, who string, want []Msg, obs []Obs, term strin
 			k++
 			matched = k
 		case o.Abandoned:
-			if !bytes.HasPrefix(exp, o.Data) {
+			if !w.Opaque && !bytes.HasPrefix(exp, o.Data) {
 				run.fail(prop, "payload-mismatch", "abandoned-prefix", "%s: message %d: bytes read before abandoning are not a prefix of what was sent (diff at %d)", who, k, firstDiff(o.Data, exp))
 			}
 			k++
 			matched = k
 		default:
 			// body error: data so far must still be a prefix
-			if !bytes.HasPrefix(exp, o.Data) {
+			if !w.Opaque && !bytes.HasPrefix(exp, o.Data) {
 				run.fail(prop, "payload-mismatch", "error-prefix", "%s: message %d: bytes read before the error are not a prefix of what was sent (diff at %d)", who, k, firstDiff(o.Data, exp))
 			}
 			errAt = i
